@@ -60,7 +60,15 @@ pub fn check(t: &Trace<'_>, out: &mut CaseOut) -> bool {
                     out.violations.push(viol("C14", format!("C14/refusal-left-trace/{}", op.kind), format!("op#{} {} refused PacketTooLarge but retained {:?}->{:?}, quota {}->{}", i, op.kind, ids(b), ids(a), b.send_quota, a.send_quota)));
                 }
                 if op.kind == "disconnect" && op.out_after != op.out_before {
-                    out.violations.push(viol("C14", "C14/refusal-left-trace/disconnect", format!("op#{} disconnect refused PacketTooLarge but wrote {} bytes", i, op.out_after - op.out_before)));
+                    // disconnect() first completes a packet that an earlier cancelled call left half
+                    // written; those bytes are not the refused request's
+                    let c = &w.conns[op.conn.unwrap_or(0)];
+                    let allowed = c.out.packets.iter().find(|p| p.start < op.out_before && p.end > op.out_before).map(|p| p.end - op.out_before).unwrap_or(0);
+                    if op.out_after - op.out_before > allowed {
+                        out.violations.push(viol("C14", "C14/refusal-left-trace/disconnect", format!("op#{} disconnect refused PacketTooLarge but wrote {} bytes ({} of them complete an earlier packet)", i, op.out_after - op.out_before, allowed)));
+                    } else {
+                        out.count("refused_disconnects_that_completed_an_earlier_packet", 1);
+                    }
                 }
                 if op.kind == "disconnect" && !op.live_after {
                     // refusing locally must not kill the handle silently... (not required by the property; recorded only)
